@@ -46,8 +46,8 @@
   Variant[A,B], Array[T]) with a decidable instance test (`inst`), the assignability the override check uses (`asg`) and
   the rewriting of the named constructor's init Struct (`tyInit`); nothing else in this file depends on which.
   Member functions: `Def.funcs`, `findFn`, `assertOverrideFn`, `defineFuncs` (interfaces: Model/ObjectFuncs).
-  Not modelled (outside the universe the driver accepts): a function that shares its name with an attribute or constant
-  of its chain (implementation-only `@fnover`, `@msg`), annotations, a hash literal with a repeated key, an array given through `constants => {}` (the type inferred for it is C04's business).
+  Not modelled (outside the universe the driver accepts): `equality` / `serialization` naming a function (implementation-only
+  `@msg`), annotations, a hash literal with a repeated key, an array given through `constants => {}` (the type inferred for it is C04's business).
   Core-only file (linked into the driver).
 -/
 namespace Pcore.Object
@@ -160,6 +160,7 @@ inductive Code where
   | serializationAttributeNotFound | serializationBadKind | serializationRequiredAfterOptional
   | serializationDuplicateAttribute
   | illegalArguments | missingRequiredAttribute | attributeHasNoValue | instanceDoesNotRespond
+  | overrideMemberMismatch | memberNameConflict
   | fault
   deriving DecidableEq, Repr, Inhabited
 
@@ -184,6 +185,8 @@ def Code.toString : Code → String
   | .missingRequiredAttribute => "reported MISSING_REQUIRED_ATTRIBUTE"
   | .attributeHasNoValue => "reported ATTRIBUTE_HAS_NO_VALUE"
   | .instanceDoesNotRespond => "reported INSTANCE_DOES_NOT_RESPOND"
+  | .overrideMemberMismatch => "reported OVERRIDE_MEMBER_MISMATCH"
+  | .memberNameConflict => "reported MEMBER_NAME_CONFLICT"
   | .fault => "fault"
 
 /-! ### definitions and attributes -/
@@ -327,8 +330,28 @@ def equalityDeclared : OType → Bool
   | [] => false
   | l :: p => l.equality.isSome || equalityDeclared p
 
-/-- annotatedmember.go assertOverride / assertCanBeOverridden: a final member is overridden only constant by constant -/
+/-- `members(true).Get(n)` answers a FUNCTION: the nearest level that has a member of that name has a function of it
+    (collectMembers puts a level's attributes first, then its functions — a function replaces an attribute of the same key) -/
+def fnShadow : OType → String → Bool
+  | [], _ => false
+  | l :: p, n =>
+    if l.funcs.any (fun f => f.name == n) then true
+    else if l.attrs.any (fun a => a.name == n) then false
+    else fnShadow p n
+
+/-- `members(true).Get(n)` answers an ATTRIBUTE -/
+def attrShadow : OType → String → Bool
+  | [], _ => false
+  | l :: p, n =>
+    if l.funcs.any (fun f => f.name == n) then false
+    else if l.attrs.any (fun a => a.name == n) then true
+    else attrShadow p n
+
+/-- annotatedmember.go assertOverride / assertCanBeOverridden: an attribute cannot override a function
+    (OVERRIDE_MEMBER_MISMATCH, the first test); a final member is overridden only constant by constant.  When the inherited
+    member is an attribute it is the nearest attribute of that name: `findAttr`. -/
 def assertOverride (parent : OType) (a : Attr) : Except Code Unit :=
+  if fnShadow parent a.name then .error .overrideMemberMismatch else
   match findAttr parent a.name with
   | none => if a.override then .error .overriddenNotFound else .ok ()
   | some pa =>
@@ -399,9 +422,10 @@ def tyOfVal : Val → Ty
   | _ => .any      -- a hash / an array: not accepted by the driver as a constant
 
 /-- InitFromHash, constants loop: the attribute specification a `constants` entry stands for — the type inferred from the
-    value, kind constant, and `override` set exactly when the parent has a member of that name -/
+    value, kind constant, and `override` set exactly when the parent has a member (attribute or function) of that name -/
 def constDecl (parent : OType) (c : String × Val) : AttrDecl :=
-  { name := c.1, ty := tyOfVal c.2, kind := .constant, dflt := some c.2, override := (findAttr parent c.1).isSome }
+  { name := c.1, ty := tyOfVal c.2, kind := .constant, dflt := some c.2,
+    override := (findAttr parent c.1).isSome || fnShadow parent c.1 }
 
 /-- the attribute specifications in the order InitFromHash processes them: `attributes`, then `constants` -/
 def Def.decls (d : Def) (parent : OType) : List AttrDecl := d.attrs ++ d.constants.map (constDecl parent)
@@ -413,8 +437,8 @@ def typeParams : OType → List (String × Ty)
 
 def isParameterized (t : OType) : Bool := !(typeParams t).isEmpty
 
-/-- own functions first, then the parent's (GetFunction).  In the universe of the driver no function shares its name with
-    an attribute or constant of its chain, so this is `Member` / `members(true).Get` restricted to functions. -/
+/-- own functions first, then the parent's (GetFunction): when `members(true).Get` answers a function (`attrShadow` false) it is
+    the nearest function of that name -/
 def findFn : OType → String → Option FnDecl
   | [], _ => none
   | l :: p, n =>
@@ -425,6 +449,7 @@ def findFn : OType → String → Option FnDecl
 /-- annotatedmember.go assertOverride / assertCanBeOverridden for a member function (against an inherited FUNCTION of that
     name; `Callable[[0,0],R]` accepts `Callable[[0,0],R']` iff `R` accepts `R'`) -/
 def assertOverrideFn (parent : OType) (f : FnDecl) : Except Code Unit :=
+  if attrShadow parent f.name then .error .overrideMemberMismatch else
   match findFn parent f.name with
   | none => if f.override then .error .overriddenNotFound else .ok ()
   | some pf =>
@@ -433,13 +458,15 @@ def assertOverrideFn (parent : OType) (f : FnDecl) : Except Code Unit :=
     else if !asg pf.ret f.ret then .error .overrideTypeMismatch
     else .ok ()
 
-/-- InitFromHash, functions loop -/
-def defineFuncs (parent : OType) : List FnDecl → Except Code Unit
+/-- InitFromHash, functions loop: `attrKeys` = the keys of the definition's `attributes` hash (NOT of `constants`): a function
+    of such a name is a MEMBER_NAME_CONFLICT; a constant and a function of one name may stand side by side -/
+def defineFuncs (parent : OType) (attrKeys : List String) : List FnDecl → Except Code Unit
   | [] => .ok ()
   | f :: fs =>
+    if attrKeys.contains f.name then .error .memberNameConflict else
     match assertOverrideFn parent f with
     | .error c => .error c
-    | .ok () => defineFuncs parent fs
+    | .ok () => defineFuncs parent attrKeys fs
 
 /-- objectType.InitFromHash: the definition numbered `env.length` against the earlier definitions `env`.  The
     `type_parameters` loop comes first: a type parameter cannot say `override => true` (TypeTypeParameter has no such
@@ -451,7 +478,7 @@ def define (env : List OType) (d : Def) : Except Code OType :=
   match defineAttrs parent (d.decls parent) with
   | .error c => .error c
   | .ok attrs =>
-    match defineFuncs parent d.funcs with
+    match defineFuncs parent (d.attrs.map (·.name)) d.funcs with
     | .error c => .error c
     | .ok () =>
     match checkEquality attrs parent (d.equality.toList?.getD []) with
@@ -598,6 +625,15 @@ def valueAt (attrs : List Attr) (vs : List Val) (i : Nat) : Except Code Val :=
     | some a => a.implicit
     | none => .error .fault
 
+/-- `Member(name)` as an attribute (typedObject.constantValue): per level the attributes first, then the functions — a
+    FUNCTION of that name at a nearer level hides an inherited attribute -/
+def memberAttr : OType → String → Option Attr
+  | [], _ => none
+  | l :: p, n =>
+    match l.attrs.find? (fun a => a.name == n) with
+    | some a => some a
+    | none => if l.funcs.any (fun f => f.name == n) then none else memberAttr p n
+
 /-- attributeSlice.Get -/
 def get (o : Obj) (n : String) : Except Code (Option Val) :=
   let ai := attrInfo o.typ
@@ -607,7 +643,7 @@ def get (o : Obj) (n : String) : Except Code (Option Val) :=
     | .ok v => .ok (some v)
     | .error c => .error c
   | none =>
-    match findAttr o.typ n with
+    match memberAttr o.typ n with
     | some a => if a.kind == .constant then .ok a.value else .ok none
     | none => .ok none
 
